@@ -4,7 +4,28 @@ from __future__ import annotations
 import corr
 from checks import cpu, execgen
 
+import re
+
 RUNS = {"ADCL", "SBCL", "DADL", "DSBL", "DSLL", "DSRL"}
+IMOP = re.compile(r"\((N|BP_N|PX_N|PY_N|BP_PX|BP_PY)(?::(\d+))?\)")
+
+
+def imem_addr(tok, case):
+    """address of an internal-memory operand as the text states it: (mode, n) under the case's BP/PX/PY (README addressing rules)"""
+    mode, n = tok
+    n = int(n or 0)
+    bp, px, py = (execgen_mem(case, cpu.IMEM + o) for o in (0xEC, 0xED, 0xEE))
+    off = {"N": n, "BP_N": bp + n, "PX_N": px + n, "PY_N": py + n, "BP_PX": bp + px, "BP_PY": bp + py}[mode]
+    return cpu.IMEM + (off & 0xFF)
+
+
+def execgen_mem(case, a):
+    hx, addr, _regs, mem, fill = case
+    if a in mem:
+        return mem[a]
+    if addr <= a < addr + len(hx) // 2:
+        return int(hx[2 * (a - addr):2 * (a - addr) + 2], 16)
+    return (a * 167 + fill * 13) % 256 if fill else 0
 
 
 def family(case, mn, py_r, py_w, den_r, den_w):
@@ -55,9 +76,25 @@ def run(ctx):
     cases = execgen.exec_cases(rng, ctx.tier, temps=True)
     lines = cpu.wire(cases)
     outs = corr.run_streams(ctx, lines, {"py": ("py", "exec_py"), "model": ("model", "exec_py"), "den": ("model", "den")})
+    rl2 = [f"{c[0]} {c[1]}" for c in cases]
+    rend = corr.run_streams(ctx, rl2, {"py": ("py", "render"), "model": ("model", "render")})
     dis = 0
-    for case, l, p, m, d in zip(cases, lines, outs["py"], outs["model"], outs["den"]):
+    for case, l, p, m, d, tp, tm in zip(cases, lines, outs["py"], outs["model"], outs["den"], rend["py"], rend["model"]):
         ctx.evaluations += 1
+        # the text of the implementation itself: where it shows another internal-memory operand than the model (whose operands
+        # are the ones the IL is compared with below), evaluate both under this state and look at what the IL touched
+        if tp != tm and tp.startswith("OK") and tm.startswith("OK"):
+            kp, km = IMOP.findall(tp), IMOP.findall(tm)
+            pq = cpu.parse(p)
+            if pq is not None and len(kp) == len(km):
+                touched = set(pq.get("r", [])) | set(pq.get("wl", []))
+                for a, b in zip(kp, km):
+                    if a != b and imem_addr(a, case) != imem_addr(b, case) and imem_addr(b, case) in touched and imem_addr(a, case) not in touched:
+                        mn0 = tp.split()[1] if len(tp.split()) > 1 else "?"
+                        ctx.report(["py", "text_names_another_internal_memory_cell_than_the_IL_touches", mn0],
+                                   f"{mn0} ({case[0]}): the text shows ({a[0]}:{a[1]}) = {imem_addr(a, case):#x}, the IL touches {imem_addr(b, case):#x} and not that cell",
+                                   {"case": "exec_py " + l, "text": tp[:200], "il_touches": sorted(touched)[:20]})
+                        break
         mcore = m.rsplit(" | k:", 1)[0]
         if cpu.canon_err(p) != cpu.canon_err(mcore):
             dis += 1
